@@ -32,6 +32,7 @@ type point struct {
 
 // Outcome describes how one execution ended.
 type Outcome struct {
+	Diverged  bool
 	Choices   []int
 	Deadlock  bool
 	Blocked   []string
@@ -42,6 +43,7 @@ type Outcome struct {
 }
 
 type Stats struct {
+	Diverged      int // replays that did not fit their prefix (TolerateDivergence)
 	Schedules     int
 	Preemptive    int // schedules with at least one preemption
 	MaxPoints     int
@@ -67,6 +69,12 @@ type Explorer struct {
 	// Reverse: the default choice when the running thread is blocked is the HIGHEST thread id instead
 	// of the lowest (a second default schedule: the deviation ball around it is another region)
 	Reverse bool
+	// TolerateDivergence: a replay whose prefix no longer fits (a choice index beyond the enabled
+	// threads) is not a hard error but ends that branch; it is counted.  For scenarios that contain a
+	// source of nondeterminism no seam owns (PUBLISH walks its subscribers in Go's map iteration order):
+	// every execution that is run is still a real execution and is judged, only the systematic
+	// enumeration below the diverging prefix is lost (and reported).
+	TolerateDivergence bool
 }
 
 // Run executes one schedule: prefix is replayed (a choice out of range is a hard error), then
@@ -152,7 +160,10 @@ func (e *Explorer) Run(mk func() *Instance, prefix []int) (*Instance, *Outcome, 
 		break
 	}
 	if replayErr != "" {
-		panic("explorer: " + replayErr)
+		if !e.TolerateDivergence {
+			panic("explorer: " + replayErr)
+		}
+		out.Diverged = true
 	}
 	out.Panics = w.Panics
 	out.Steps = w.Steps
@@ -204,6 +215,10 @@ func (e *Explorer) Explore(mk func() *Instance, visit func(in *Instance, out *Ou
 			if !cont {
 				stop = true
 				return
+			}
+			if out.Diverged {
+				st.Diverged++
+				return // the points of this run do not belong to the prefix: no children
 			}
 		}
 		cost := 0
